@@ -188,10 +188,13 @@ theorem deleteLoop_rest (fuel : Nat) (toks : List Str) (t : Val) (p : Pos) (c : 
       omega
     have hlen : (toks.take (k + 1)).length ≤ toks.length := by
       rw [List.length_take]; exact Nat.min_le_right _ _
-    obtain ⟨res, hres, _⟩ := find_spells t' true hsp2 hne fuel [] slash true rfl
+    obtain ⟨res, hres, hfres⟩ := find_spells t' true hsp2 hne fuel [] slash true rfl
       (Nat.le_trans (Nat.mul_le_mul_left 2 hlen) hf)
+    have hdp : delPlace fuel t' (toks.getD k []) res = .ok (some res) := by
+      obtain ⟨_, _, pp, _, _, _, _, hpar, _⟩ := hfres
+      exact delPlace_at _ _ _ _ _ hpar
     rw [deleteLoop, hres]
-    simp only [Bool.false_or, Bool.false_and, Bool.false_eq_true, if_false]
+    simp only [hdp, Bool.false_or, Bool.false_and, Bool.false_eq_true, if_false]
     exact ih (by omega)
 
 /-- **delete, not recursive**: the addressed node is removed and nothing else happens -/
@@ -204,9 +207,9 @@ theorem deleteLoop_spelled (fuel : Nat) (toks : List Str) (t : Val) (p : Pos) (c
     omega⟩
   obtain ⟨r, hr, hfound⟩ := find_spells t true hs hne fuel [] slash true rfl hf
   have hdt := delThrough_found t p c r t' hfound hdel
-  have hdp : delPlace fuel t r = .ok r := by
+  have hdp : ∀ tok, delPlace fuel t tok r = .ok (some r) := by
     obtain ⟨_, _, pp, _, _, _, _, hpar, _⟩ := hfound
-    exact delPlace_at _ _ _ _ hpar
+    exact fun tok => delPlace_at _ _ tok _ _ hpar
   rw [hn, deleteLoop]
   have htake : toks.take (n + 1) = toks := by rw [← hn]; exact List.take_length
   rw [htake, hr]
